@@ -54,6 +54,11 @@ var c03Ops []c03Op
 
 const c03PCRMax = uint64(1)<<33*300 - 1
 
+// c03Current as the argument of SetPCR/SetOPCR: "the value the getter reports right now" (a freshly
+// opened slot holds whatever bytes were there; writing back what they decode to must still leave the
+// canonical encoding). Not enabled when the field is absent or decodes beyond the PCR range.
+const c03Current = ^uint64(0)
+
 func init() {
 	add := func(o c03Op) { c03Ops = append(c03Ops, o) }
 	for _, k := range []struct {
@@ -74,6 +79,8 @@ func init() {
 	for _, v := range []uint64{0, 0x7F, 0x80, 0xFF} {
 		add(c03Op{name: fmt.Sprintf("SetSpliceCountdown(%#x)", v), kind: c03SetSplice, v: v})
 	}
+	add(c03Op{name: "SetPCR(the value PCR() reports)", kind: c03SetPCR, v: c03Current})
+	add(c03Op{name: "SetOPCR(the value OPCR() reports)", kind: c03SetOPCR, v: c03Current})
 	for n, nm := range []string{"0", "1", "2", "exact-fit", "fit+1", "256", "300"} {
 		add(c03Op{name: "SetTransportPrivateData(len " + nm + ")", kind: c03SetPriv, n: n})
 	}
@@ -222,6 +229,16 @@ func c03Apply(s *c03State, opi int, res *engine.Result) bool {
 		return true
 	}
 	m2 := s.m.Clone()
+	if op.v == c03Current {
+		cur := m2.PCR
+		if op.kind == c03SetOPCR {
+			cur = m2.OPCR
+		}
+		if cur == nil || ref.PCRValue(cur) > c03PCRMax {
+			return false
+		}
+		op.v = ref.PCRValue(cur)
+	}
 	wantErr := false
 	class := ""
 	adopt := -1
@@ -613,7 +630,7 @@ func init() {
 		ID: "C03", Title: "Adaptation field stays a faithful ISO 13818-1 encoding under any edit history", Level: "model_checking",
 		Scenarios: []engine.ScenarioRunner{
 			c03BFS("all-lengths-shallow",
-				"BFS from the empty and 4 pre-populated adaptation fields of EVERY adaptation_field_length 1..183 (payload 183-len bytes, AF-only at 183), alphabet of 51 setter calls (3 indicators x2, 5 presence toggles x2, 3 PCR + 3 OPCR values, 4 splice values, private data / extension with lengths {0,1,2,exact fit,fit+1,256,300}, whole-field copy from 6 source packets with a 183-byte field and 5 whose field is exactly as long as its content); after every call bytes == reference serialisation and all getters of both APIs == model; states deduplicated on the 188 packet bytes; depth 2 (quick) / 3 (thorough)",
+				"BFS from the empty and 4 pre-populated adaptation fields of EVERY adaptation_field_length 1..183 (payload 183-len bytes, AF-only at 183), alphabet of 53 setter calls (3 indicators x2, 5 presence toggles x2, 3 PCR + 3 OPCR values and, for each, the value its getter reports at that moment, 4 splice values, private data / extension with lengths {0,1,2,exact fit,fit+1,256,300}, whole-field copy from 6 source packets with a 183-byte field and 5 whose field is exactly as long as its content); after every call bytes == reference serialisation and all getters of both APIs == model; states deduplicated on the 188 packet bytes; depth 2 (quick) / 3 (thorough)",
 				func(r *engine.Run) []int { return c03Inits(seq(1, 183), []int{0, 1, 2, 3, 4}) },
 				func(r *engine.Run) int {
 					if r.Thorough() {
